@@ -362,7 +362,16 @@ class CFG:
         ectx = _Ctx(on_return, outer_raise, on_break, on_continue, guarded_outer, ctx.handler_type, ctx.handler_name)
         orelse = self._block(s.orelse, after_try, ectx)
         bctx = _Ctx(on_return, body_raise, on_break, on_continue, True, ctx.handler_type, ctx.handler_name)
-        return self._block(s.body, orelse, bctx)
+        entry = self._block(s.body, orelse, bctx)
+        if not self.exc_edges and COARSE_EXC and handler_entries:
+            # Without per-statement exception edges the handlers would be unreachable and their statements invisible to every
+            # rule that enumerates paths.  One coarse edge per handler, taken before anything in the try body ran, keeps them in view.
+            te = self._new('tryenter', s)
+            self._edge(te.id, entry, None)
+            for h, hid in handler_entries:
+                self._edge(te.id, hid, 'exc')
+            return te.id
+        return entry
 
     # ------------------------------------------------------------------ queries
     def node_for(self, a: ast.AST) -> List[Node]:
@@ -441,6 +450,9 @@ class CFG:
         return rec(start)
 
 
+COARSE_EXC = True
+
+
 def atom_key(e: ast.AST, polarity: bool) -> Tuple[str, bool]:
     """Normalise an atomic test: `a != b` -> (a == b, not p); `x is not y`; `x not in y`."""
     if isinstance(e, ast.Compare) and len(e.ops) == 1:
@@ -467,6 +479,12 @@ class Path:
     @property
     def exit_kind(self) -> Optional[str]:
         return self.cfg.nodes[self.end].exit_kind
+
+    @property
+    def coarse(self) -> bool:
+        """the path enters an except handler through the coarse edge of a CFG built without per-statement exception edges:
+        what the try body did before the exception is not on the path (rules of the form "X is called on every path" skip these)"""
+        return any(lab == 'exc' and self.cfg.nodes[nid].kind == 'tryenter' for nid, lab in self.steps)
 
     @property
     def end_node(self) -> Node:
